@@ -6,7 +6,7 @@ namespace rs {
 static const char* const kNames[K_COUNT] = { "none", "mark", "pass", "fail_cpp", "fail_c", "throw_std", "throw_foreign", "print", "clock",
     "alloc", "free", "realloc", "expect_leaks", "ignore_leaks", "ptr_set", "plugin_error",
     "die_signal", "die_exit", "die_abort", "die_stop", "fork_fail", "wait_eintr", "wait_error", "wait_stopped", "wait_exited", "wait_signaled",
-    "plugin_install", "plugin_remove", "add_failures" };
+    "plugin_install", "plugin_remove", "other_leak_plugin", "add_failures" };
 const char* kindName(int k) { return k >= 0 && k < K_COUNT ? kNames[k] : "none"; }
 int kindFromName(const char* s) { for (int i = 0; i < K_COUNT; i++) if (!strcmp(s, kNames[i])) return i; return K_NONE; }
 
@@ -189,6 +189,7 @@ void generate(uint64_t seed, const Str& profile, Desc& d, bool exceptions) {
                     if (x < 5) { o.kind = K_ALLOC; o.a = (int64_t)world.below(bigLeaks ? N_SLOTS : 12); o.b = (int64_t)world.below(5); o.c = world.chance(1, bigLeaks ? 6 : 40) ? world.range(65, 3000) : world.small(1, 64); }
                     else if (x < (bigLeaks ? 6u : 8u)) { o.kind = K_FREE; o.a = (int64_t)world.below(bigLeaks ? N_SLOTS : 12); }
                     else if (x < 9) { o.kind = K_REALLOC; o.a = (int64_t)world.below(bigLeaks ? N_SLOTS : 12); o.c = world.small(1, 64); if (world.chance(1, 6)) o.b = 1; }
+                    else if (world.chance(1, 12)) o.kind = K_OTHER_LEAK_PLUGIN;
                     else if (ph == 0 || world.chance(1, 2)) { if (world.chance(3, 4)) { o.kind = K_EXPECT_LEAKS; o.a = (int64_t)world.below(5); } else o.kind = K_IGNORE_LEAKS; }
                     else o.kind = K_MARK;
                 }
